@@ -5,7 +5,7 @@
 //! runtime + provenance + engine taken around *every* pass, followed by
 //! quarantine / recovery / retry phases and the exactly-once log checker.
 
-use std::collections::{BTreeMap, BTreeSet};
+use std::collections::BTreeSet;
 
 use verif_core::{json, Args, Budget, Report, Rng, Value};
 use warp_core::verif::failpoint;
@@ -787,6 +787,10 @@ pub fn run_case(case: &Case, rep: &mut Report) {
         }
     }
     m.log.push(format!("inject {} at head {f_head} (expected surfacing head {expected_head:?})", case.kind.name()));
+    if case.n == 1 && matches!(case.kind, Kind::Intent(b'C')) && m.rep.wants_sample() {
+        // always leave at least one concrete case in the evidence file
+        m.rep.sample(json!({"case": case.to_json(), "stage": "before the failing pass", "history": m.log.clone()}));
+    }
 
     let rp = m.pass("failing-pass");
     // Failpoint reachability is evidence, never assumed.
@@ -1039,6 +1043,3 @@ fn replay(_args: &Args, path: &std::path::Path, mut rep: Report) -> i32 {
         0
     }
 }
-
-#[allow(dead_code)]
-fn unused(_: BTreeMap<u8, u8>) {}
